@@ -638,6 +638,11 @@ func parsedSummary(text string) map[string]any {
 	return map[string]any{"text": text, "vclass": o["vclass"], "l": o["l"], "tree": o["tree"]}
 }
 
+var (
+	wktHistEnc = wkt.NewEncoder()
+	wktHalf    = geom.NewGeometryCollection().MustPush(geom.NewPointFlat(geom.XY, []float64{1, 2}), geom.NewLineString(geom.NoLayout))
+)
+
 func wktEncHandler(raw json.RawMessage) map[string]any {
 	c := dec[wktEncCase](raw)
 	r := rand.New(rand.NewSource(seed*104729 + int64(len(raw))))
@@ -646,6 +651,15 @@ func wktEncHandler(raw json.RawMessage) map[string]any {
 	text, err := wkt.Marshal(g)
 	retainStr("wkt.Marshal", text)
 	obs["overwritten"] = drainOverwritten()
+	// the same geometry through an Encoder VALUE that lives as long as the driver and has just refused a collection half way
+	// through: it must write what a new encoder writes
+	obs["histsame"] = true
+	if _, herr := wktHistEnc.Encode(wktHalf); herr == nil {
+		panic("harness: the collection with a member without layout was encoded")
+	}
+	if t2, err2 := wktHistEnc.Encode(g); t2 != text || (err2 == nil) != (err == nil) {
+		obs["histsame"] = false
+	}
 	if err == nil {
 		obs["encok"] = true
 		obs["text"] = text
